@@ -187,6 +187,17 @@ Example ex_threads_explicit_disconnect_blocks :
   stuck (fst (t_run (tsl_init [0]) [TConnect; TNext; TDisconnect])).
 Proof. vm_compute. repeat split; reflexivity. Qed.
 
+(* link lost while connect() starts its last configuration (the code; the late-registration variant) *)
+Example ex_threads_loss_during_connect :
+  snd (t_run (tsl_init [1; 2]) (connect_with_loss 2 2))
+    = [ONone; ONone; ONone; ONone; ONone; ONone; OInGet; OStop] /\
+  snd (t_rung false (tsl_init [1; 2]) (connect_with_loss 2 2))
+    = [ONone; ONone; ONone; ONone; ONone; ONoop; OInGet; ONoop] /\
+  (* lost after the first of two new configurations: the second one's start() raises, next() stops *)
+  snd (t_run (tsl_init [1; 2]) (connect_with_loss 2 1))
+    = [ONone; ONone; ONone; ORaiseAttr; ONoop; ONone; OStop; ONoop].
+Proof. vm_compute. repeat split; reflexivity. Qed.
+
 (* OBSERVATION: connect() scheduled between the two halves of _disconnected: the sentinel of the old
    session lands in the queue of the new one and ends its iteration *)
 Example ex_threads_stale_sentinel_race :
